@@ -1371,6 +1371,8 @@ struct Exec
     {
         g_reg.reset();
         fctl() = FaultCtl();
+        atrack().enabled = true;
+        atrack().reset();
         out = Outcome();
         for (size_t i = 0; i < plan.ops.size() && !stop; i++)
             step(plan.ops[i], static_cast<int>(i));
@@ -1381,6 +1383,9 @@ struct Exec
             destroy_slot(k);
         if (!stop && g_reg.has_pending)
             fail(g_reg.pending.cls.c_str(), endop, static_cast<int>(plan.ops.size()), 0, 0, g_reg.pending.detail);
+        if (!stop && atrack().live())
+            fail("C06/leak", endop, static_cast<int>(plan.ops.size()), 0, 0,
+                 std::to_string(atrack().live()) + " block(s) allocated by the operations were never freed");
         if (!stop && !g_reg.live.empty())
             fail("C06/leak", endop, static_cast<int>(plan.ops.size()), 0, 0,
                  std::to_string(g_reg.live.size()) + " element object(s) still alive after all containers were destroyed");
